@@ -4,41 +4,239 @@ namespace PbVerif.Lemmas
 open PbVerif.Optim
 
 /-- cutting back after padding returns the user's per-point array, for every side and width -/
-theorem cutBack_padSide (side : Side) (k : Nat) (v : List Rat) : cutBack side k (padSide side k v) = v := by sorry
+theorem cutBack_padSide (side : Side) (k : Nat) (v : List Rat) : cutBack side k (padSide side k v) = v := by
+  cases side <;> simp [padSide, cutBack, List.take_append]
 
 /-- the method parameters cut back from an extended fit of length `N + added` have the data's length -/
 theorem cutBack_length (side : Side) (k : Nat) (v : List Rat) (n : Nat)
-    (h : v.length = n + (if side = .both then 2 * k else k)) : (cutBack side k v).length = n := by sorry
+    (h : v.length = n + (if side = .both then 2 * k else k)) : (cutBack side k v).length = n := by
+  cases side <;> simp [cutBack] at h ⊢ <;> omega
+
+/-- the constrained weights differ from the weights exactly on the first `c0` and last `c1` points -/
+theorem constrainedWeights_spec (w : List Rat) (c0 c1 : Nat) (w0 w1 : Rat) (i : Nat) (hi : i < w.length) :
+    (constrainedWeights w c0 c1 w0 w1).getD i 0 =
+      if w.length - c1 ≤ i then w1 else if i < c0 then w0 else w.getD i 0 := by
+  simp [constrainedWeights, List.getD_eq_getElem?_getD, hi]
+
+theorem rollTake_eq (b : List Rat) (shift m : Nat) (t : List Rat) (ht : t.length = m)
+    (h : ∀ j, j < m → b[(j + b.length - shift % b.length) % b.length]? = t[j]?) :
+    rollTake b shift m = t := by
+  apply List.ext_getElem?
+  intro j
+  by_cases hj : j < m
+  · simp [rollTake, hj, List.getD_eq_getElem?_getD, h j hj]
+    have : j < t.length := by omega
+    simp [this]
+  · simp [rollTake, hj]
+    omega
 
 /-- the rolled slice is exactly the fit on the added right block followed by the added left block —
 the order in which `known_background` is assembled — for an extended fit `left ++ mid ++ right` -/
 theorem addedPart_both (k : Nat) (l m r : List Rat) (hl : l.length = k) (hr : r.length = k) (hk : 0 < k) :
-    addedPart .both k (l ++ m ++ r) = r ++ l := by sorry
+    addedPart .both k (l ++ m ++ r) = r ++ l := by
+  simp only [addedPart, reduceCtorEq, ↓reduceIte]
+  apply rollTake_eq
+  · simp; omega
+  · intro j hj
+    simp only [List.length_append, hl, hr]
+    have h1 : k % (k + m.length + k) = k := Nat.mod_eq_of_lt (by omega)
+    rw [h1]
+    by_cases hjk : j < k
+    · rw [Nat.mod_eq_of_lt (by omega)]
+      rw [List.getElem?_append_right (by simp; omega)]
+      rw [List.getElem?_append_left (by omega)]
+      congr 1; simp; omega
+    · have : j + (k + m.length + k) - k = (j - k) + (k + m.length + k) := by omega
+      rw [this, Nat.add_mod_right, Nat.mod_eq_of_lt (by omega)]
+      rw [List.append_assoc, List.getElem?_append_left (by omega)]
+      rw [List.getElem?_append_right (by omega)]
+      congr 1; omega
+
 theorem addedPart_right (k : Nat) (m r : List Rat) (hr : r.length = k) (hk : 0 < k) :
-    addedPart .right k (m ++ r) = r := by sorry
+    addedPart .right k (m ++ r) = r := by
+  simp only [addedPart, reduceCtorEq, ↓reduceIte]
+  apply rollTake_eq
+  · omega
+  · intro j hj
+    simp only [List.length_append, hr]
+    by_cases hm : m.length = 0
+    · have : m = [] := List.length_eq_zero_iff.mp hm
+      subst this
+      simp [Nat.mod_eq_of_lt hj]
+    · have h1 : k % (m.length + k) = k := Nat.mod_eq_of_lt (by omega)
+      rw [h1, Nat.mod_eq_of_lt (by omega)]
+      rw [List.getElem?_append_right (by omega)]
+      congr 1; omega
+
 theorem addedPart_left (k : Nat) (l m : List Rat) (hl : l.length = k) (hk : 0 < k) :
-    addedPart .left k (l ++ m) = l := by sorry
+    addedPart .left k (l ++ m) = l := by
+  simp only [addedPart, reduceCtorEq, ↓reduceIte]
+  apply rollTake_eq
+  · omega
+  · intro j hj
+    simp only [List.length_append, hl]
+    simp
+    rw [Nat.mod_eq_of_lt (by omega)]
+    rw [List.getElem?_append_left (by omega)]
+
+theorem argminFirst_aux (l : List Rat) (f : Nat × Option Rat → Nat → Nat × Option Rat)
+    (hnone : ∀ a i, f (a, none) i = (i, some (l.getD i 0)))
+    (hsome : ∀ a m i, f (a, some m) i = if l.getD i 0 < m then (i, some (l.getD i 0)) else (a, some m))
+    (n : Nat) :
+    ∃ i, (List.range (n+1)).foldl f (0, none)
+      = (i, some (l.getD i 0)) ∧ i < n + 1 ∧ (∀ j, j < n + 1 → l.getD i 0 ≤ l.getD j 0) ∧
+        (∀ j, j < i → l.getD i 0 < l.getD j 0) := by
+  induction n with
+  | zero =>
+    refine ⟨0, ?_, by omega, ?_, ?_⟩
+    · simp [List.range_succ, hnone]
+    · intro j hj
+      have : j = 0 := by omega
+      subst this; exact Rat.le_refl
+    · intro j hj; omega
+  | succ n ih =>
+    obtain ⟨i, h1, h2, h3, h4⟩ := ih
+    rw [List.range_succ, List.foldl_append, h1]
+    simp only [List.foldl_cons, List.foldl_nil, hsome]
+    by_cases hlt : l.getD (n+1) 0 < l.getD i 0
+    · refine ⟨n+1, ?_, by omega, ?_, ?_⟩
+      · rw [if_pos hlt]
+      · intro j hj
+        by_cases hj' : j < n + 1
+        · have := h3 j hj'; grind
+        · have : j = n + 1 := by omega
+          subst this; exact Rat.le_refl
+      · intro j hj
+        have := h3 j hj; grind
+    · refine ⟨i, ?_, by omega, ?_, h4⟩
+      · rw [if_neg hlt]
+      · intro j hj
+        by_cases hj' : j < n + 1
+        · exact h3 j hj'
+        · have : j = n + 1 := by omega
+          subst this; grind
+
+theorem argminFirst_aux' (l : List Rat) (f : Nat × Option Rat → Nat → Nat × Option Rat)
+    (hnone : ∀ a i, f (a, none) i = (i, some (l.getD i 0)))
+    (hsome : ∀ a m i, f (a, some m) i = if l.getD i 0 < m then (i, some (l.getD i 0)) else (a, some m))
+    (hpos : 0 < l.length) :
+    ((List.range l.length).foldl f (0, none)).1 < l.length ∧
+    (∀ j, j < l.length → l.getD ((List.range l.length).foldl f (0, none)).1 0 ≤ l.getD j 0) ∧
+    (∀ j, j < ((List.range l.length).foldl f (0, none)).1 →
+      l.getD ((List.range l.length).foldl f (0, none)).1 0 < l.getD j 0) := by
+  obtain ⟨i, h1, h2, h3, h4⟩ := argminFirst_aux l f hnone hsome (l.length - 1)
+  have e : l.length - 1 + 1 = l.length := by omega
+  rw [e] at h1 h2 h3
+  rw [h1]
+  exact ⟨h2, h3, h4⟩
 
 /-- the reported optimal parameter is a FIRST minimiser of the reported errors -/
 theorem argminFirst_spec (l : List Rat) (h : l ≠ []) :
     argminFirst l < l.length ∧ (∀ j, j < l.length → l.getD (argminFirst l) 0 ≤ l.getD j 0) ∧
-    (∀ j, j < argminFirst l → l.getD (argminFirst l) 0 < l.getD j 0) := by sorry
+    (∀ j, j < argminFirst l → l.getD (argminFirst l) 0 < l.getD j 0) := by
+  have hpos : 0 < l.length := List.length_pos_iff.mpr h
+  unfold argminFirst
+  exact argminFirst_aux' l _ (fun a i => rfl) (fun a m i => rfl) hpos
+
+theorem sectionIdx_full (n : Nat) (hn : 2 ≤ n) : sectionIdx 0 n 1 = List.range (n + 1) := by
+  have h0 : ¬ n = 0 := by omega
+  simp only [sectionIdx, Nat.sub_zero, Nat.div_one, if_neg h0, Nat.zero_add]
+  apply List.ext_getElem?
+  intro i
+  by_cases hi : i < n + 1
+  · simp [hi, Nat.mul_div_cancel _ (by omega : 0 < n)]
+  · simp [hi]
+
+theorem zip_range_tail (n : Nat) :
+    (List.range (n + 1)).zip (List.range (n + 1)).tail = (List.range n).map (fun i => (i, i + 1)) := by
+  apply List.ext_getElem?
+  intro i
+  by_cases hi : i < n
+  · have : i < n + 1 := by omega
+    simp [hi, List.zip_eq_zipWith]
+    omega
+  · simp [hi, List.zip_eq_zipWith]
 
 /-- `custom_bc` with one full region and unit sampling averages every single point with itself and
 keeps no other point: x_fit = x, y_fit = y -/
 theorem customBc_identity_plan (n : Nat) (hn : 2 ≤ n) :
     (customBcPlan n [(0, n, 1)]).sections = (List.range n).map (fun i => (i, i + 1)) ∧
-    (customBcPlan n [(0, n, 1)]).mask = List.replicate n false := by sorry
+    (customBcPlan n [(0, n, 1)]).mask = List.replicate n false := by
+  have hF : (((List.range n).map (fun i => (i, i + 1))).any fun p => p.1 == 0 && p.2 == 1) = true := by
+    rw [List.any_eq_true]
+    exact ⟨(0, 1), by simp; omega, by simp⟩
+  have hL : (((List.range n).map (fun i => (i, i + 1))).any fun p => p.2 == n && p.1 + 1 == n) = true := by
+    rw [List.any_eq_true]
+    refine ⟨(n - 1, n), ?_, ?_⟩
+    · simp only [List.mem_map, List.mem_range]; exact ⟨n - 1, by omega, by congr 1; omega⟩
+    · simp; omega
+  have hmask : ((List.range n).map fun (i : Nat) => if 0 ≤ i ∧ i < n then false else (List.replicate n true).getD i true)
+      = List.replicate n false := by
+    apply List.ext_getElem?
+    intro i
+    by_cases hi : i < n
+    · simp [hi]
+    · simp [hi]
+  simp only [customBcPlan, List.foldl_cons, List.foldl_nil, sectionIdx_full n hn, zip_range_tail, hF, hL, hmask]
+  simp
 
-/-- the constrained weights differ from the weights exactly on the first `c0` and last `c1` points -/
-theorem constrainedWeights_spec (w : List Rat) (c0 c1 : Nat) (w0 w1 : Rat) (i : Nat) (hi : i < w.length) :
-    (constrainedWeights w c0 c1 w0 w1).getD i 0 =
-      if w.length - c1 ≤ i then w1 else if i < c0 then w0 else w.getD i 0 := by sorry
+theorem rat_le_max_left (a b : Rat) : a ≤ max a b := by grind
+theorem rat_le_max_right (a b : Rat) : b ≤ max a b := by grind
+theorem rat_max_choice (a b : Rat) : max a b = a ∨ max a b = b := by grind
+
+theorem zipMax_getD (a b : List Rat) (n i : Nat) (ha : a.length = n) (hb : b.length = n) (hi : i < n) :
+    (List.zipWith max a b).getD i 0 = max (a.getD i 0) (b.getD i 0) := by
+  simp [List.getD_eq_getElem?_getD, ha, hb, hi]
+
+theorem foldMax_spec (rest : List (List Rat)) (n : Nat) (h : ∀ b ∈ rest, b.length = n) (i : Nat) (hi : i < n) :
+    ∀ acc : List Rat, acc.length = n →
+      (rest.foldl (fun acc r => List.zipWith max acc r) acc).length = n ∧
+      acc.getD i 0 ≤ (rest.foldl (fun acc r => List.zipWith max acc r) acc).getD i 0 ∧
+      (∀ r ∈ rest, r.getD i 0 ≤ (rest.foldl (fun acc r => List.zipWith max acc r) acc).getD i 0) ∧
+      ((rest.foldl (fun acc r => List.zipWith max acc r) acc).getD i 0 = acc.getD i 0 ∨
+        ∃ r ∈ rest, (rest.foldl (fun acc r => List.zipWith max acc r) acc).getD i 0 = r.getD i 0) := by
+  induction rest with
+  | nil => intro acc hacc; simp [hacc]
+  | cons r rest ih =>
+    intro acc hacc
+    have hr : r.length = n := h r (by simp)
+    have hz : (List.zipWith max acc r).length = n := by simp [hacc, hr]
+    obtain ⟨h1, h2, h3, h4⟩ := ih (fun b hb => h b (by simp [hb])) _ hz
+    rw [zipMax_getD acc r n i hacc hr hi] at h2 h4
+    simp only [List.foldl_cons]
+    refine ⟨h1, ?_, ?_, ?_⟩
+    · exact Rat.le_trans (rat_le_max_left _ _) h2
+    · intro r' hr'
+      rcases List.mem_cons.mp hr' with rfl | hr'
+      · exact Rat.le_trans (rat_le_max_right _ _) h2
+      · exact h3 r' hr'
+    · rcases h4 with h4 | ⟨r', hr', h4⟩
+      · rcases rat_max_choice (acc.getD i 0) (r.getD i 0) with e | e
+        · left; rw [h4, e]
+        · right; exact ⟨r, by simp, by rw [h4, e]⟩
+      · right; exact ⟨r', by simp [hr'], h4⟩
 
 /-- the result of `adaptive_minmax` dominates each of the four fits and is attained by one of them -/
 theorem pointwiseMax_ge (bs : List (List Rat)) (n : Nat) (h : ∀ b ∈ bs, b.length = n) (b : List Rat) (hb : b ∈ bs)
-    (i : Nat) (hi : i < n) : b.getD i 0 ≤ (pointwiseMax bs).getD i 0 := by sorry
+    (i : Nat) (hi : i < n) : b.getD i 0 ≤ (pointwiseMax bs).getD i 0 := by
+  cases bs with
+  | nil => simp at hb
+  | cons b0 rest =>
+    obtain ⟨h1, h2, h3, h4⟩ := foldMax_spec rest n (fun b hb => h b (by simp [hb])) i hi b0 (h b0 (by simp))
+    simp only [pointwiseMax]
+    rcases List.mem_cons.mp hb with rfl | hb
+    · exact h2
+    · exact h3 b hb
+
 theorem pointwiseMax_attained (bs : List (List Rat)) (n : Nat) (h : ∀ b ∈ bs, b.length = n) (hne : bs ≠ [])
-    (i : Nat) (hi : i < n) : ∃ b ∈ bs, (pointwiseMax bs).getD i 0 = b.getD i 0 := by sorry
+    (i : Nat) (hi : i < n) : ∃ b ∈ bs, (pointwiseMax bs).getD i 0 = b.getD i 0 := by
+  cases bs with
+  | nil => simp at hne
+  | cons b0 rest =>
+    obtain ⟨h1, h2, h3, h4⟩ := foldMax_spec rest n (fun b hb => h b (by simp [hb])) i hi b0 (h b0 (by simp))
+    simp only [pointwiseMax]
+    rcases h4 with h4 | ⟨r, hr, h4⟩
+    · exact ⟨b0, by simp, h4⟩
+    · exact ⟨r, by simp [hr], h4⟩
 
 end PbVerif.Lemmas
